@@ -180,6 +180,8 @@ def transfer_measures(ctx, rule='C02.R1', units=True):
 
 
 def run(ctx):
+    from .configtime import derived_values as _derived
+    _derived(ctx, 'C02.R1', ('Container', 'Plate', 'PlateSlicer', 'Slicer', 'Unit'))
     from .configtime import decisions_not_taken_on_display_values as _coarse
     _coarse(ctx, 'C02.R3', ('Container', 'Plate', 'PlateSlicer', 'Recipe', 'RecipeStep'))
     from .configtime import no_writes_through_get as _no_get_writes
@@ -218,6 +220,7 @@ def run(ctx):
     from . import c01 as _c01
     _c01.shared_plate_copy(ctx, 'C02.R3')
     _c01.no_bulk_contents_writes(ctx, 'C02.R2')
+    dispatchers_answer_through_the_primitives(ctx, 'C02.R3')
     return {'explanation': 'R1: each unit branch of the transfer computes ratio = requested / total with the numerator '
                            'derived from the user quantity and the denominator from the source, both in the same unit '
                            '(units engine: the ratio is dimensionless with scale 1 on all paths and kinds), and the '
@@ -370,3 +373,43 @@ def vectorize_once(ctx, rule):
                fact=f"keywords {sorted(kws)}",
                why='without cache=True/otypes numpy calls the function once more on the first element: the first well '
                    'is transferred twice', key='vectorize warm-up call')
+
+
+PRIMITIVES = ('_transfer', '_transfer_slice', 'transfer')
+
+
+def dispatchers_answer_through_the_primitives(ctx, rule):
+    """`Container.transfer` and `Plate.transfer` only choose the primitive: every value they return is the result of
+    `_transfer` / `_transfer_slice` / `PlateSlicer._transfer`.  A return of their own (the arguments handed back because the
+    quantity "is nothing") decides the size of the amount outside the one place where it is measured in storage units."""
+    plain = ctx.model.plain()
+    n = 0
+    for q in ('Container.transfer', 'Plate.transfer'):
+        fi = plain.func(q)
+        assigned = {}
+        for st in walk_no_nested(fi.node):
+            if isinstance(st, ast.Assign):
+                for t in st.targets:
+                    for nm in ast.walk(t):
+                        if isinstance(nm, ast.Name):
+                            assigned.setdefault(nm.id, []).append(st.value)
+
+        def from_primitive(e, depth=0):
+            if isinstance(e, ast.Call) and isinstance(e.func, ast.Attribute) and e.func.attr in PRIMITIVES:
+                return True
+            if isinstance(e, (ast.Tuple, ast.List)):
+                return all(from_primitive(x, depth) for x in e.elts)
+            if isinstance(e, ast.Name) and depth < 3 and e.id in assigned:
+                return all(from_primitive(v, depth + 1) for v in assigned[e.id])
+            return False
+        rets = [r for r in walk_no_nested(fi.node) if isinstance(r, ast.Return)]
+        bad = [r for r in rets if r.value is None or not from_primitive(r.value)]
+        n += len(rets)
+        ctx.ob(rule, ctx.model.func(q), (bad[0].lineno if bad else fi.node.lineno),
+               f"{q}: every answer is the result of a transfer primitive", not bad and bool(rets),
+               fact=(f"`{unparse(bad[0], 70)}` is the dispatcher's own answer" if bad else f"{len(rets)} return(s), all of them results of "
+                     f"{' / '.join(PRIMITIVES[:2])} / PlateSlicer._transfer"),
+               why='a request the dispatcher judges to be empty is not carried out (and its arguments are handed back instead of copies): '
+                   'amounts below its threshold are not moved although they are representable in storage units',
+               key=f"{q} answers without a primitive")
+    floor(ctx, 'returns of the transfer dispatchers', n, 3)
